@@ -676,12 +676,12 @@ def normalize_label_lemma(repo):
     p = subprocess.run(['/venv/bin/python', '-c', NORM_PROBE.replace('REPO', repr(repo))], capture_output=True, text=True)
     ms = (time.time() - t0) * 1000
     if p.returncode != 0:
-        return {'results': [mk('table:normalize_label', 'undecided', ms, ['C07'], detail='probe failed: ' + p.stderr[-300:],
+        return {'results': [mk('table:normalize_label', 'undecided', ms, ['C07', 'C02'], detail='probe failed: ' + p.stderr[-300:],
                                fn='mistletoe.core_tokens.normalize_label', kind='resolve')], 'sha': {}}
     d = json.loads(p.stdout)
     ok = not d['bad']
     w = d['bad'][0] if d['bad'] else None
-    return {'results': [mk('table:normalize_label == casefold + whitespace collapse', 'proved' if ok else 'refuted', ms, ['C07'],
+    return {'results': [mk('table:normalize_label == casefold + whitespace collapse', 'proved' if ok else 'refuted', ms, ['C07', 'C02'],
                            fn='mistletoe.core_tokens.normalize_label',
                            text='for every code point c: normalize_label("x" + c + "Y") == "x" + casefold(c) + "y"; every '
                                 'specification whitespace character is stripped at the ends and collapsed to one space inside '
@@ -692,8 +692,44 @@ def normalize_label_lemma(repo):
             'sha': {}, 'assumptions': ['str.casefold of the interpreter is the Unicode case folding the specification names']}
 
 
+def mutable_class_attr_lemma(repo):
+    """C11 / C14 / C08 frame: renderer and token state that changes while rendering lives on instances or
+    in the listed process globals - no class of the package holds a mutable container (list, dict, set) as
+    a class attribute, where it would be shared by every instance and survive an exception or a context
+    exit (a push that is never popped would then change the output of every later document)."""
+    import glob as _glob
+    res = []
+    for path in sorted(_glob.glob(os.path.join(repo, 'mistletoe', '*.py')) + _glob.glob(os.path.join(repo, 'mistletoe', 'contrib', '*.py'))):
+        rel = os.path.relpath(path, repo)
+        try:
+            tree = ast.parse(open(path).read())
+        except (OSError, SyntaxError) as e:
+            res.append(mk('state:no-mutable-class-attribute:%s' % rel, 'undecided', 0, ['C11', 'C14', 'C08'], detail=str(e), kind='resolve'))
+            continue
+        bad = []
+        for n in ast.walk(tree):
+            if not isinstance(n, ast.ClassDef):
+                continue
+            for a in n.body:
+                if isinstance(a, (ast.Assign, ast.AnnAssign)) and a.value is not None:
+                    v = a.value
+                    if isinstance(v, (ast.List, ast.Dict, ast.Set, ast.ListComp, ast.DictComp, ast.SetComp)) or (
+                            isinstance(v, ast.Call) and ast.unparse(v.func) in ('list', 'dict', 'set', 'defaultdict',
+                                                                                  'collections.defaultdict', 'OrderedDict', 'deque')):
+                        bad.append('%s.%s (line %d)' % (n.name, ast.unparse(a.targets[0] if isinstance(a, ast.Assign) else a.target), a.lineno))
+        if bad or rel.endswith(('html_renderer.py', 'base_renderer.py', 'block_token.py', 'span_token.py', 'markdown_renderer.py',
+                                'latex_renderer.py')) or 'contrib' in rel:
+            res.append(mk('state:no-mutable-class-attribute:%s' % rel, 'proved' if not bad else 'refuted', 0, ['C11', 'C14', 'C08'], fn=rel,
+                          text='no class body of this module assigns a list / dict / set to a class attribute',
+                          model=None if not bad else {'attributes': bad},
+                          native=None if not bad else {'reproduced': True, 'attributes': bad,
+                                                       'why': 'a class-level container is one object shared by all instances of the process'}))
+    return {'results': res, 'sha': {}}
+
+
 LEMMAS = {
-    'table:normalize_label': (normalize_label_lemma, ['C07']),
+    'state:class-attributes': (mutable_class_attr_lemma, ['C11', 'C14', 'C08']),
+    'table:normalize_label': (normalize_label_lemma, ['C07', 'C02']),
     'frame:cli-passthrough': (cli_passthrough_lemma, ['C15']),
     'frame:no-rebreak': (no_rebreak_lemma, ['C10']),
     'classes:structure': (class_lemmas, ['C18', 'C01', 'C11', 'C16']),
